@@ -461,9 +461,10 @@ package main
 //@ define el = o.Elems[k0]
 //@ define prevElems = ite(prevOK, prev.Elems, zero(map[string]attr.Value))
 //@ modifies prevElems[_]
+// values are trees: the elements map of a map value is not the attribute map that holds the value
+//@ requires imp(prevOK, prev.Elems != old(tf.Attrs))
 
 //@ emits CopyTo when IsMap && Kind != "Custom" && Ctx == "plain"
-//@ requires imp(prevOK, prev.Elems != old(tf.Attrs))
 //@ ensures [C03] imp(isCT, o.Elems != nil)
 //@ ensures [C03] imp(isCT && !prevOK, has(o.Elems, k0) == has(src, k0))
 //@ ensures [C09] imp(isCT, has(o.Elems, k0) == has(src, k0))
